@@ -6,6 +6,7 @@ import itertools
 import re
 
 from ..exprs import NotConst, fold
+from ..guards import controlling
 from ..loader import AnalysisError, attr_chain, call_name, callee_attr, calls_in, norm, short
 from ..symexec import SymExec
 
@@ -439,6 +440,20 @@ def run(ctx):
                     (isinstance(n.ops[0], (ast.LtE, ast.Lt)) and norm(n.comparators[0]) == "overlap_cutoff") or
                     (isinstance(n.ops[0], (ast.GtE, ast.Gt)) and norm(n.left) == "overlap_cutoff")))
                 masked = any(isinstance(x, ast.Subscript) for x in ast.walk(darg)) or (isinstance(darg, ast.Name) and _mentions(darg, fdefs, lambda n: isinstance(n, ast.Subscript)))
+                # an evaluation of every pair is also fine on a path where every pair is known to be inside the cutoff (`if <cutoff mask>.all():` shortcut)
+                all_inside = False
+                for a_, pol_, _ in controlling(m, m.enclosing_stmt(c)):
+                    if isinstance(a_, ast.Call) and isinstance(a_.func, ast.Name) and a_.func.id == "bool" and len(a_.args) == 1:
+                        a_ = a_.args[0]
+                    if pol_ and isinstance(a_, ast.Call) and callee_attr(a_) == "all" and isinstance(a_.func, ast.Attribute) and not a_.args and not a_.keywords:
+                        src_ = a_.func.value
+                        if _mentions(src_, fdefs, lambda n: isinstance(n, ast.Compare) and len(n.ops) == 1 and (
+                                (isinstance(n.ops[0], (ast.LtE, ast.Lt)) and norm(n.comparators[0]) == "overlap_cutoff") or
+                                (isinstance(n.ops[0], (ast.GtE, ast.Gt)) and norm(n.left) == "overlap_cutoff"))):
+                            all_inside = True
+                if all_inside:
+                    ctx.ok("R2", f"{short(m.rel)}:{qual}", f"{nm} evaluates every pair only on the path where all pairs are within overlap_cutoff")
+                    continue
                 ctx.check(has_cut and masked, "R2", m, c, qual, f"{nm}(..., {short(norm(darg))}, ...)",
                           f"distances handed to {nm} are selected by `<= overlap_cutoff`",
                           f"{nm} is evaluated for pairs at any separation (distance argument `{short(norm(darg))}` is not restricted by overlap_cutoff): beyond the cutoff the Slater "
